@@ -669,7 +669,8 @@ def tournament_selection_and_mutation(
         elite, population = tournament.select(population)
         population = mutation.mutation(population)
 
-    if save_elite:
+    # With an accelerator only the main process performs the selection and holds the elite
+    if save_elite and (accelerator is None or accelerator.is_main_process):
         if language_model:
             save_llm_checkpoint(elite, elite_path)
         else:
